@@ -3,12 +3,9 @@
    starts, no two overlapping executions conflict, and the borrow flags never
    refuse a borrow.
 
-   Atomicity note: a system's fetch is one event here, while the real fetch
-   takes its borrows one after the other and other threads may fetch in
-   between.  All borrows of systems that can overlap (different groups of one
-   stage) are mutually compatible by the staging invariant, so the finer
-   interleavings reach the same flag states; that refinement is argued, not
-   proved (see C11_LIMITS in Props/C11.v). *)
+   Granularity: a system's fetch is one event here and the drop of its data
+   another.  FineExec.v / FineInv.v prove "no borrow is ever refused" again on
+   traces where every single borrow and every single drop is its own event. *)
 From SV Require Import Dispatch.Stage Dispatch.Borrow Dispatch.Exec Dispatch.StageInv Dispatch.BorrowInv.
 From Coq Require Import Permutation.
 Local Open Scope nat_scope.
